@@ -62,6 +62,19 @@ META.update({
     },
 })
 
+META.update({
+    "C13": {
+        "text": "Proof: agent.go is modelled method by method as a transaction table; for EVERY call sequence from any "
+                "consistent state and every id: successful Starts + registered-before = terminal events + "
+                "registered-after (exactly_one_terminal, induction over the history with the no-duplicate invariant), "
+                "plus per-method specifications (Start fails iff closed/duplicate, Stop, Process, strict Collect, "
+                "Close, everything closed afterwards). Correspondence: exhaustive call sequences + long random ones.",
+        "note": PROOF_NOTE + "Go maps are modelled as duplicate-free association lists; event order inside one call is "
+                "unspecified (sorted before comparison).",
+        "technique": "Lean 4 invariant proof over arbitrary histories + exhaustive/random sequence correspondence",
+    },
+})
+
 NOT_APPLICABLE = {p: "check not built yet in this round (see DESIGN.md §4 for the plan)" for p in
-                  ["C04", "C05", "C06", "C07", "C10", "C11", "C12", "C13", "C14", "C15", "C16", "C17",
+                  ["C04", "C05", "C06", "C07", "C10", "C11", "C12", "C14", "C15", "C16", "C17",
                    "C18", "C20"]}
